@@ -494,8 +494,9 @@ impl<M: Manager, W: From<Object<M>>> Pool<M, W> {
             while slots.size > slots.max_size {
                 if let Ok(permit) = self.inner.semaphore.try_acquire() {
                     permit.forget();
-                    if slots.vec.pop_front().is_some() {
+                    if let Some(mut obj) = slots.vec.pop_front() {
                         slots.size -= 1;
+                        self.inner.manager.detach(&mut obj.obj);
                     }
                 } else {
                     break;
